@@ -65,6 +65,30 @@ def extract(ctx, extra_units=None):
     return cat, prefixes
 
 
+def base_dim_collisions(ctx):
+    """The catalogue identifies a base dimension by the index the library gives it, so two *different* base dimensions that share an
+    index would be invisible to everything derived from the catalogue.  Reads the base-dimension types out of dimension.hh and returns the
+    pairs with equal index (empty on a sane tree), decided by the compiler on the real types."""
+    import re
+    text = open(os.path.join(core.REPO, "au", "code", "au", "dimension.hh")).read()
+    names = re.findall(r"struct\s+(\w+)\s*:\s*BaseDimension<", text)
+    if len(names) < 2:
+        return []
+    L = ['#include "au/dimension.hh"', "#include <cstdio>", "int main() {"]
+    for n in names:
+        L.append('  std::printf("%s %%lld\\n", (long long)au::base_dim::%s::base_dim_index);' % (n, n))
+    src = ctx.write("basedims.cc", "\n".join(L + ["  return 0;", "}"]) + "\n")
+    exe = ctx.path("basedims")
+    rc, out = ctx.cxx(src, exe, cfg="g14", opt="-O0")
+    if rc != 0:
+        raise core.ToolError("base dimension read-out does not compile:\n" + out[-1500:])
+    idx = {}
+    for line in ctx.run_bin(exe).splitlines():
+        n, i = line.split()
+        idx.setdefault(int(i), []).append(n)
+    return [(i, ns) for i, ns in sorted(idx.items()) if len(ns) > 1]
+
+
 def mag_fraction(mag):
     """exact Fraction of a rational magnitude pack, None if irrational / fractional exponents"""
     v = Fraction(1)
